@@ -52,6 +52,10 @@ pub fn engine_run(case: &SqlCase, sql: &str) -> vf_df::RunOutput {
     out
 }
 
+fn decorrelation_rule_failed(msg: &str) -> bool {
+    ["'scalar_subquery_to_join' failed", "'decorrelate_predicate_subquery' failed", "'decorrelate_lateral_join' failed"].iter().any(|r| msg.contains(r)) && msg.contains("No field named")
+}
+
 fn nullability_mismatch(out: &vf_df::RunOutput) -> bool {
     matches!(&out.outcome, DfOutcome::Error(e) if e.class == ErrClass::Internal && e.message.contains("Physical input schema should be the same") && e.message.contains("field nullability"))
 }
@@ -158,7 +162,7 @@ pub fn filter_above_empty_grouping_set(q: &Query) -> bool {
     }
     fn derived_empty_set(t: &TableRef) -> bool {
         match t {
-            TableRef::Derived { q, .. } => matches!(&q.body, SetExpr::Select(s) if agg_with_empty_set(s)),
+            TableRef::Derived { q, .. } => matches!(&q.body, SetExpr::Select(s) if agg_with_empty_set(s) || s.from.as_ref().map(derived_empty_set).unwrap_or(false)),
             TableRef::Join { left, right, .. } => derived_empty_set(left) || derived_empty_set(right),
             _ => false,
         }
@@ -185,16 +189,14 @@ pub fn filter_above_empty_grouping_set(q: &Query) -> bool {
     found
 }
 
-/// a scalar subquery nested inside a scalar subquery
-pub fn nested_scalar_subquery(q: &Query) -> bool {
+/// a window call whose first argument is a literal (known finding `window-aggregate-of-literal`)
+pub fn window_of_literal(q: &Query) -> bool {
     let mut found = false;
     refsql::visit_exprs(q, &mut |e| {
-        if let Expr::Scalar(sq) = e {
-            refsql::visit_exprs(sq, &mut |x| {
-                if matches!(x, Expr::Scalar(_)) {
-                    found = true
-                }
-            });
+        if let Expr::Win(w) = e {
+            if matches!(w.args.first(), Some(Expr::Lit(_)) | Some(Expr::Null(_))) && !matches!(w.f, refsql::WinFunc::Ntile) {
+                found = true
+            }
         }
     });
     found
@@ -253,6 +255,182 @@ pub fn outer_join_literal_eq_column(q: &Query) -> bool {
     }
     let mut found = false;
     refsql::visit_queries(q, &mut |qq| set(&qq.body, &mut found));
+    found
+}
+
+/// WHERE mentions a column of the null-supplying side of an outer join that also occurs in that join's ON
+/// (known finding `outer-join-filter-on-nullable-side-join-key`)
+pub fn outer_join_filter_on_nullable_key(q: &Query) -> bool {
+    fn aliases(t: &TableRef, out: &mut Vec<String>) {
+        match t {
+            TableRef::Table { alias, .. } | TableRef::Derived { alias, .. } | TableRef::Series { alias, .. } | TableRef::Values { alias, .. } => out.push(alias.clone()),
+            TableRef::Join { left, right, .. } => {
+                aliases(left, out);
+                aliases(right, out)
+            }
+        }
+    }
+    // (alias, column) pairs of null-supplying sides that occur in the ON of their outer join
+    fn nullable_keys(t: &TableRef, out: &mut Vec<(String, String)>) {
+        if let TableRef::Join { kind, left, right, on } = t {
+            let mut sides: Vec<String> = vec![];
+            match kind {
+                JoinKind::Left => aliases(right, &mut sides),
+                JoinKind::Right => aliases(left, &mut sides),
+                JoinKind::Full => {
+                    aliases(left, &mut sides);
+                    aliases(right, &mut sides)
+                }
+                _ => {}
+            }
+            if let Some(o) = on {
+                refsql::eval::walk_expr_shallow(o, &mut |x| {
+                    if let Expr::Col { rel: Some(r), name } = x {
+                        if sides.contains(r) {
+                            out.push((r.clone(), name.clone()));
+                        }
+                    }
+                });
+            }
+            nullable_keys(left, out);
+            nullable_keys(right, out);
+        }
+    }
+    fn set(e: &SetExpr, found: &mut bool) {
+        match e {
+            SetExpr::Select(s) => {
+                if let (Some(t), Some(w)) = (&s.from, &s.where_) {
+                    let mut keys = vec![];
+                    nullable_keys(t, &mut keys);
+                    if !keys.is_empty() {
+                        refsql::eval::walk_expr_shallow(w, &mut |x| {
+                            if let Expr::Col { rel: Some(r), name } = x {
+                                if keys.iter().any(|(a, c)| a == r && c == name) {
+                                    *found = true;
+                                }
+                            }
+                        });
+                    }
+                }
+            }
+            SetExpr::SetOp { left, right, .. } => {
+                set(left, found);
+                set(right, found)
+            }
+            SetExpr::Query(_) => {}
+        }
+    }
+    let mut found = false;
+    refsql::visit_queries(q, &mut |qq| set(&qq.body, &mut found));
+    found
+}
+
+/// ORDER BY over a set-operation tree containing a UNION in which some branch has a constant select item
+/// (known finding `union-constant-columns-order-by`)
+pub fn union_constant_order_by(q: &Query) -> bool {
+    fn is_const(e: &Expr) -> bool {
+        let mut c = true;
+        refsql::eval::walk_expr_shallow(e, &mut |x| {
+            if matches!(x, Expr::Col { .. } | Expr::Agg(_) | Expr::Win(_) | Expr::Scalar(_) | Expr::Exists { .. } | Expr::InSubquery { .. } | Expr::Quantified { .. } | Expr::Grouping(_)) {
+                c = false
+            }
+        });
+        c
+    }
+    fn scan(e: &SetExpr, has_union: &mut bool, has_const: &mut bool) {
+        match e {
+            SetExpr::Select(s) => {
+                if s.items.iter().any(|i| is_const(&i.expr)) {
+                    *has_const = true
+                }
+            }
+            SetExpr::SetOp { op, left, right, .. } => {
+                if *op == SetOp::Union {
+                    *has_union = true
+                }
+                scan(left, has_union, has_const);
+                scan(right, has_union, has_const);
+            }
+            SetExpr::Query(q) => scan(&q.body, has_union, has_const),
+        }
+    }
+    let mut found = false;
+    refsql::visit_queries(q, &mut |qq| {
+        if !qq.order_by.is_empty() {
+            let (mut u, mut c) = (false, false);
+            scan(&qq.body, &mut u, &mut c);
+            if u && c {
+                found = true;
+            }
+        }
+    });
+    found
+}
+
+/// a sum() aggregate in a query that has a derived table with a constant select item
+/// (known finding `sum-of-constant-derived-column`)
+pub fn sum_of_constant_derived_column(q: &Query) -> bool {
+    let mut has_sum = false;
+    refsql::visit_exprs(q, &mut |e| {
+        if let Expr::Agg(a) = e {
+            if a.f == refsql::AggFunc::Sum {
+                has_sum = true
+            }
+        }
+    });
+    if !has_sum {
+        return false;
+    }
+    fn is_const(e: &Expr) -> bool {
+        let mut c = true;
+        refsql::eval::walk_expr_shallow(e, &mut |x| {
+            if matches!(x, Expr::Col { .. } | Expr::Agg(_) | Expr::Win(_) | Expr::Scalar(_) | Expr::Exists { .. } | Expr::InSubquery { .. } | Expr::Quantified { .. } | Expr::Grouping(_)) {
+                c = false
+            }
+        });
+        c
+    }
+    fn tref(t: &TableRef, found: &mut bool) {
+        match t {
+            TableRef::Derived { q, .. } => {
+                if let SetExpr::Select(s) = &q.body {
+                    if s.items.iter().any(|i| is_const(&i.expr)) {
+                        *found = true
+                    }
+                }
+            }
+            TableRef::Join { left, right, .. } => {
+                tref(left, found);
+                tref(right, found)
+            }
+            _ => {}
+        }
+    }
+    fn set(e: &SetExpr, found: &mut bool) {
+        match e {
+            SetExpr::Select(s) => {
+                if let Some(t) = &s.from {
+                    tref(t, found)
+                }
+            }
+            SetExpr::SetOp { left, right, .. } => {
+                set(left, found);
+                set(right, found)
+            }
+            SetExpr::Query(_) => {}
+        }
+    }
+    let mut found = false;
+    refsql::visit_queries(q, &mut |qq| {
+        set(&qq.body, &mut found);
+        for c in &qq.with {
+            if let SetExpr::Select(s) = &c.q.body {
+                if s.items.iter().any(|i| is_const(&i.expr)) {
+                    found = true
+                }
+            }
+        }
+    });
     found
 }
 
@@ -396,13 +574,8 @@ fn for_each_not_in<'a>(q: &'a Query, f: &mut dyn FnMut(&'a Expr, &'a Query)) {
 pub fn not_in_constant_lhs(q: &Query) -> bool {
     let mut found = false;
     for_each_not_in(q, &mut |e, _| {
-        let mut has_col = false;
-        refsql::eval::walk_expr_shallow(e, &mut |y| {
-            if matches!(y, Expr::Col { .. } | Expr::Scalar(_)) {
-                has_col = true
-            }
-        });
-        if !has_col {
+        // anything but a bare column may be folded to a constant by the simplifier
+        if !matches!(e, Expr::Col { .. }) {
             found = true;
         }
     });
@@ -420,16 +593,12 @@ pub fn not_in_correlated(q: &Query) -> bool {
     found
 }
 
-/// a UNION with a UNION operand (the optimizer flattens those into one n-ary Union)
+/// the query contains a UNION [ALL]
 pub fn has_nested_union(q: &Query) -> bool {
     fn set(e: &SetExpr, found: &mut bool) {
         if let SetExpr::SetOp { op, left, right, .. } = e {
             if *op == SetOp::Union {
-                for side in [left, right] {
-                    if matches!(**side, SetExpr::SetOp { op: SetOp::Union, .. }) {
-                        *found = true;
-                    }
-                }
+                *found = true;
             }
             set(left, found);
             set(right, found);
@@ -568,6 +737,53 @@ pub fn describe(case: &SqlCase, sql: &str) -> String {
     format!("\n  sql: {sql}\n  repro script:\n{}", repro_script(&case.tables, sql))
 }
 
+/// Shape-keyed signatures of the open C01 known findings (excluded by construction; also used by C02 / C03).
+pub fn shape_signature(q: &Query) -> Option<String> {
+    if unaliased_quantified(q) {
+        return Some("unaliased-select-list-quantified".into());
+    }
+    if in_subquery_outside_conjunct(q) {
+        return Some("in-subquery-outside-conjunct".into());
+    }
+    if not_in_constant_lhs(q) {
+        return Some("not-in-subquery-constant-lhs".into());
+    }
+    if not_in_correlated(q) {
+        return Some("not-in-subquery-correlated".into());
+    }
+    if has_intersect_except_all(q) {
+        return Some("intersect-except-all".into());
+    }
+    if in_list_case_element(q) {
+        return Some("in-list-case-element".into());
+    }
+    if join_mixed_null_equality(q) {
+        return Some("join-mixed-null-equality".into());
+    }
+    if union_constant_order_by(q) {
+        return Some("union-constant-columns-order-by".into());
+    }
+    if window_of_literal(q) {
+        return Some("window-aggregate-of-literal".into());
+    }
+    if outer_join_filter_on_nullable_key(q) {
+        return Some("outer-join-filter-on-nullable-side-join-key".into());
+    }
+    if outer_join_literal_eq_column(q) {
+        return Some("outer-join-on-literal-eq-column".into());
+    }
+    if filter_above_empty_grouping_set(q) {
+        return Some("filter-below-empty-grouping-set".into());
+    }
+    if pred_subquery_correlated_global_agg(q) {
+        return Some("pred-subquery-correlated-global-aggregate".into());
+    }
+    if sum_of_constant_derived_column(q) {
+        return Some("sum-of-constant-derived-column".into());
+    }
+    None
+}
+
 impl Property for C01 {
     type Case = SqlCase;
     fn id(&self) -> &'static str {
@@ -598,39 +814,11 @@ impl Property for C01 {
     }
     fn known_signature(&self, case: &SqlCase) -> Option<String> {
         let q = &case.query;
-        // shape-keyed signatures (excluded by construction)
-        if unaliased_quantified(q) {
-            return Some("unaliased-select-list-quantified".into());
-        }
-        if in_subquery_outside_conjunct(q) {
-            return Some("in-subquery-outside-conjunct".into());
-        }
-        if not_in_constant_lhs(q) {
-            return Some("not-in-subquery-constant-lhs".into());
-        }
-        if not_in_correlated(q) {
-            return Some("not-in-subquery-correlated".into());
-        }
-        if has_intersect_except_all(q) {
-            return Some("intersect-except-all".into());
-        }
-        if in_list_case_element(q) {
-            return Some("in-list-case-element".into());
-        }
-        if join_mixed_null_equality(q) {
-            return Some("join-mixed-null-equality".into());
-        }
-        if outer_join_literal_eq_column(q) {
-            return Some("outer-join-on-literal-eq-column".into());
-        }
-        if filter_above_empty_grouping_set(q) {
-            return Some("filter-below-empty-grouping-set".into());
-        }
-        if pred_subquery_correlated_global_agg(q) {
-            return Some("pred-subquery-correlated-global-aggregate".into());
+        if let Some(sig) = shape_signature(q) {
+            return Some(sig);
         }
         // outcome-keyed signatures: construct present AND the engine answers with exactly that internal error
-        let (bt, cw, nu, wi, ns) = (has_bool_test(q), case_then_in_when(q), has_nested_union(q), has_window(q), nested_scalar_subquery(q));
+        let (bt, cw, nu, wi, ns) = (has_bool_test(q), case_then_in_when(q), has_nested_union(q), has_window(q), false);
         if bt || cw || nu || wi || ns {
             let out = engine_run(case, &refsql::to_sql(q));
             if nullability_mismatch(&out) {
@@ -641,17 +829,14 @@ impl Property for C01 {
                     return Some("nullability-mismatch:case-then-in-when".into());
                 }
             }
-            if ns && matches!(&out.outcome, DfOutcome::Error(e) if e.stage == vf_df::Stage::Optimize && e.message.contains("scalar_subquery_to_join") && e.message.contains("No field named")) {
-                return Some("nested-correlated-scalar-subquery".into());
-            }
             if wi && matches!(&out.outcome, DfOutcome::Error(e) if e.class == ErrClass::Execution && e.message.contains("Expects PARTITION BY expression to be ordered")) {
                 return Some("window-partition-by-not-ordered".into());
             }
             if nu && matches!(&out.outcome, DfOutcome::Error(e) if e.class == ErrClass::SchemaError && e.stage == vf_df::Stage::Optimize && e.message.contains("No field named")) {
-                return Some("nested-union-empty-first-branch".into());
+                return Some("union-empty-first-branch-names".into());
             }
             if nu && matches!(&out.outcome, DfOutcome::Error(e) if e.class == ErrClass::Internal && e.message.contains("Physical input schema should be the same") && e.message.contains("field name at index")) {
-                return Some("nested-union-empty-first-branch".into());
+                return Some("union-empty-first-branch-names".into());
             }
         }
         None
@@ -673,6 +858,11 @@ impl Property for C01 {
         let base = |r: CaseResult| r.labels(feats.iter().cloned());
         match (&reference, &out.outcome) {
             (_, DfOutcome::Timeout) => base(CaseResult::inconclusive("engine timeout")),
+            // a decorrelation rule giving up with a schema error is this engine's way of rejecting an unsupported
+            // correlated-subquery shape (no rows are produced): discard, counted under its own reason
+            (_, DfOutcome::Error(e)) if e.stage == vf_df::Stage::Optimize && e.class == ErrClass::SchemaError && (decorrelation_rule_failed(&e.message) || (e.message.contains("No field named") && refsql::is_correlated(&case.query))) => {
+                base(CaseResult::discard("unsupported correlated subquery: a decorrelation rule failed with a schema error")).label("engine-rejected").label("decorrelation-failed")
+            }
             (_, DfOutcome::Error(e)) if e.class.is_clean_rejection() && !(e.class == ErrClass::SchemaError && e.stage == vf_df::Stage::Optimize) => {
                 if std::env::var_os("C01_DEBUG").is_some() {
                     eprintln!("DISCARD {:?} {:?}: {}\n   sql: {sql}", e.class, e.stage, e.message);
